@@ -143,6 +143,20 @@ def check(ctx, rep):
     exf = _stored_fields(ctx, bc, "executor")
     fnf = _stored_fields(ctx, bc, "fn")
     rep.ob("R-BOUND", "BoundCallable.__init__ keeps executor and fn", len(exf) == 1 and len(fnf) == 1, "expected one field holding the executor parameter and one holding fn (found %s, %s)" % (exf, fnf), where_of(bc.methods["__init__"]))
+    # bulk attribute copies onto the object (functools.update_wrapper copies the wrapped callable's __dict__) must not
+    # come after the two fields are set: a wrapped callable that has attributes of the same names -- another
+    # BoundCallable -- replaces them, and the call then goes to the inner callable's executor only
+    binit = bc.methods["__init__"]
+    ps, it = ctx.paths(binit, bc, depth=2, inline=_own_helpers(bc))
+    for p in ps:
+        if p.status == "raise":
+            continue
+        for fld in exf + fnf:
+            st = [e for e in p.evs("store") if q.self_field(e.d["target"], fld)]
+            if not st:
+                continue
+            late = [e for e in p.calls() if e.seq > st[-1].seq and ((q.call_name(e) in ("update_wrapper", "wraps") and SELF in e.d["args"][:1]) or (q.call_name(e) == "update" and q.recv(e) == ("attr", SELF, "__dict__")))]
+            rep.ob("R-BOUND", "BoundCallable.__init__: nothing overwrites %s afterwards" % ("the executor field" if fld in exf else "the function field"), not late, "%s runs after self.%s was set and copies every attribute of the wrapped callable onto the object: binding a callable that is itself a BoundCallable replaces the field with the inner one's, so calling the outer callable submits the inner function to the inner executor and bypasses the executor it was bound to" % (fmt(late[0].d["func"]) if late else "", fld), where_of(binit, late[0].node) if late else where_of(binit), trace_of(p))
     if len(exf) == 1 and len(fnf) == 1:
         ps, it = ctx.paths(call, bc, depth=2, inline=_own_helpers(bc))
         for p in ps:
